@@ -15,13 +15,13 @@ import (
 func init() {
 	register(&PropDef{
 		ID: "C07", Level: "exploration", Quick: 48000, Thorough: 800000, QuickCap: 110,
-		Rule:   "each run = one store, 2-4 client tasks x 1-4 HTTP requests on 1-2 object names: conditional and unconditional uploads (media, multipart, resumable), patches conditioned on metageneration, deletes, compose and copy (same bucket and across buckets) into the contended name (static sources), metadata and media reads; the seeded scheduler interleaves them at every store access (Store seam), every internal step of the per-object lock map and the file store's write steps; 0-1 request contexts are cancelled, at a scheduled instant or inside one of the ctx.Err() calls the code makes; the history (global event stamps) is checked per object with porcupine against the object model with generations as opaque fresh tokens, plus the single-winner invariant for N writers conditioned on one generation; distinct = trace + response hash; non-trivial = at least one preemption",
+		Rule:   "each run = one store, 2-4 client tasks x 1-4 HTTP requests on 1-2 object names: conditional and unconditional uploads (media, multipart, resumable), patches conditioned on metageneration, deletes, compose and copy (same bucket and across buckets) into the contended name (static sources), copies OF the contended object to fresh names (a read of one version: attributes and bytes must belong together), metadata and media reads; the seeded scheduler interleaves them at every store access (Store seam), every internal step of the per-object lock map and the file store's write steps; 0-1 request contexts are cancelled, at a scheduled instant or inside one of the ctx.Err() calls the code makes; the history (global event stamps) is checked per object with porcupine against the object model with generations as opaque fresh tokens, plus the single-winner invariant for N writers conditioned on one generation; distinct = trace + response hash; non-trivial = at least one preemption",
 		Real:   []string{"gcsemu handlers through the real mux, gcsutil.TransientLockMap, memstore (btree under its mutexes), filestore (content, mtime, sidecar as separate system calls)"},
 		Stub:   []string{"HTTP connections (recorder)", "Go channel blocking in the lock map (wait-until)", "wall clock (strictly increasing, so generations are distinct; the stalled clock belongs to C10)"},
 		Assume: []string{"a resumable upload is one operation whose window spans all its requests", "listings are not part of this workload", "porcupine Unknown is counted, never reported"},
 		Run:    runC07,
 	})
-	expectedProbes["C07"] = []string{"c07.same_generation_writers", "c07.patch_race", "c07.delete_vs_upload", "c07.reader_among_writers", "c07.lock_waited", "c07.cancel_fired", "c07.porcupine_ok", "c07.compose_vs_upload", "c07.cross_bucket_copy", "c07.append_by_compose", "c07.cancel_inside_err_call"}
+	expectedProbes["C07"] = []string{"c07.same_generation_writers", "c07.patch_race", "c07.delete_vs_upload", "c07.reader_among_writers", "c07.lock_waited", "c07.cancel_fired", "c07.porcupine_ok", "c07.compose_vs_upload", "c07.cross_bucket_copy", "c07.append_by_compose", "c07.cancel_inside_err_call", "c07.copy_of_contended_source"}
 }
 
 type c07In struct {
@@ -190,6 +190,13 @@ func c07Model(states map[string]c07State) porcupine.Model {
 					return false, same
 				}
 				return true, put(c07State{MaxGen: st.MaxGen})
+			case "copyout":
+				// a copy of this object to a name nobody else touches is a read of this object:
+				// the copy carries the attributes and the bytes of ONE version
+				if !st.Exists {
+					return out.Status == 404, same
+				}
+				return ok2xx(out.Status) && out.Metagen == 1 && out.Proj == st.Sum+"\x00"+sizeMd5(st.Content), same
 			case "getmeta":
 				if !st.Exists {
 					return out.Status == 404, same
@@ -267,10 +274,12 @@ func runC07(r *Run) {
 		ret  int64
 	}
 	var hist []hop
-	seq := 0
+	seq, copySeq := 0, 0
 	mkUpload := func(name string, conds gConds, proto string) c07In {
 		seq++
-		u := upSpec{Bucket: "bkt", Name: name, Content: []byte(fmt.Sprintf("content-%d", seq)), ContentType: "text/plain", Conds: conds}
+		// content type, metadata and bytes all carry the version number, so a mixture of two
+		// versions (attributes of one, bytes of another) matches no state of the model
+		u := upSpec{Bucket: "bkt", Name: name, Content: []byte(fmt.Sprintf("content-%d", seq)), ContentType: fmt.Sprintf("text/x-v%d", seq), Conds: conds}
 		if proto != "media" {
 			u.Metadata = map[string]string{"w": fmt.Sprint(seq)}
 		}
@@ -342,7 +351,12 @@ func runC07(r *Run) {
 				d := record(ps, 24)
 				name := names[d.n(nNames)]
 				var in c07In
-				switch d.w(5, 3, 2, 2, 2, 3, 3) {
+				switch d.w(5, 3, 2, 2, 2, 3, 3, 2) {
+				case 7:
+					copySeq++
+					op := gOp{Kind: "Copy", Bucket: "bkt", Name: name, DstB: "other-bucket", DstN: fmt.Sprintf("copy-of-%d", copySeq)}
+					in = c07In{Kind: "copyout", Op: op, Name: name, Desc: op.String()}
+					r.Probe("c07.copy_of_contended_source")
 				case 0:
 					g := &gGen{}
 					var conds gConds
